@@ -113,3 +113,88 @@ def blocked_recv_released(h):
         r2 = f2.poll()
         h.check(r2 is not None and r2.idx == 1, "c16.recv.call-after-shutdown-did-not-fail-at-once", "pending" if r2 is None else repr(r2)[:100])
         h.cover("c16.recv.call-after-shutdown-fails")
+
+
+SC = "socket::core::state::ShutdownCoordinator"
+CSTATE = "socket::core::state::CoreState"
+EPI = "socket::core::state::EndpointInfo"
+
+
+def shutdown_bookkeeping(h):
+    """ShutdownCoordinator::{begin_shutdown_sequence, record_child_actor_stopped, record_connection_closed}: the
+    socket core's list of what it waits for at shutdown. 0..3 endpoints (listener with a task, listener without one,
+    session), then stop reports in every order, with duplicates and with ids the core never tracked. The report that
+    empties both lists - and only that one - must return true (it moves the socket on to lingering); an untracked or
+    repeated id returns false and changes nothing; with nothing to wait for both lists are empty at once."""
+    from ..models import MapV
+    prog = h.it.prog
+    phases = prog.enum_variants("socket::core::state::ShutdownPhase")
+    scf = prog.struct_fields(SC)
+    sc_vals = [Opaque(f) for f in scf]
+    sc_vals[scf.index("state")] = Enum("socket::core::state::ShutdownPhase", phases.index("Running"), "Running", [])
+    sc_vals[scf.index("pending_child_actors")] = MapV("HashMap", [])
+    sc_vals[scf.index("pending_connections_to_close")] = MapV("HashMap", [])
+    if "inproc_connections_to_cleanup" in scf:
+        sc_vals[scf.index("inproc_connections_to_cleanup")] = Seq("vec", [], "?")
+    sc_vals[scf.index("linger_deadline")] = none()
+    coord = Ref(Cell(Agg(SC, sc_vals), "coordinator"), ())
+    n = h.choose(h.params.get("max_endpoints", 3) + 1, "endpoints")
+    ef = prog.struct_fields(EPI)
+    ets = prog.enum_variants("socket::core::state::EndpointType")
+    eps, tracked = [], {}           # tracked: id -> "listener" | "session"
+    for i in range(n):
+        kind = h.choose(3, f"endpoint{i}")          # 0 listener with a task handle, 1 listener without, 2 session
+        v = [Opaque(f) for f in ef]
+        hid = 40 + i
+        v[ef.index("endpoint_type")] = Enum("socket::core::state::EndpointType", ets.index("Listener" if kind < 2 else "Session"), "Listener" if kind < 2 else "Session", [])
+        v[ef.index("task_handle")] = some(Opaque("join_handle")) if kind == 0 else none()
+        v[ef.index("handle_id")] = hid
+        v[ef.index("connection_iface")] = BoxV(Cell(Agg("{peer}", [i]), f"conn{i}"), (), "{peer}")
+        v[ef.index("is_outbound_connection")] = True
+        v[ef.index("pipe_ids")] = none()
+        uri = string("tcp://e%d" % i)
+        v[ef.index("endpoint_uri")] = clone_val(uri)
+        eps.append((uri, Agg(EPI, v)))
+        if kind == 0:
+            tracked[hid] = "listener"
+        elif kind == 2:
+            tracked[hid] = "session"
+    csf = prog.struct_fields(CSTATE)
+    cs_vals = [Opaque(f) for f in csf]
+    cs_vals[csf.index("endpoints")] = MapV("HashMap", eps)
+    core_state = Ref(Cell(Agg(CSTATE, cs_vals), "core_state"), ())
+    h.panic_role = "c16.bookkeeping"
+    r = h.method(SC, "begin_shutdown_sequence", coord, 1, core_state)
+    h.check(r is True, "c16.bookkeeping.shutdown-not-initiated")
+    def pending():
+        c = coord.load()
+        return ({k for k, _ in c.f[scf.index("pending_child_actors")].items}, {k for k, _ in c.f[scf.index("pending_connections_to_close")].items})
+    pa, pc = pending()
+    h.check(pa == {k for k, v in tracked.items() if v == "listener"} and pc == {k for k, v in tracked.items() if v == "session"},
+            "c16.bookkeeping.waiting-list-differs-from-the-running-endpoints", f"listeners {sorted(pa)}, connections {sorted(pc)}, reference {tracked}")
+    # the shutdown sequence moves on to stopping children; reports arrive in any order
+    left = dict(tracked)
+    done_reported = 0
+    for j in range(h.params.get("reports", 4)):
+        ids = sorted(tracked) + [99]                    # 99: an id the core never tracked
+        if not ids:
+            break
+        hid = ids[h.choose(len(ids), f"report{j}")]
+        as_listener = h.choose(2, f"report{j}_as_listener") == 1
+        before = pending()
+        r = h.method(SC, "record_child_actor_stopped" if as_listener else "record_connection_closed", coord, hid, 1)
+        known = left.get(hid) == ("listener" if as_listener else "session")
+        if known:
+            del left[hid]
+            h.check(r is (not left), "c16.bookkeeping.last-report-not-recognised-or-recognised-early",
+                    f"report for {hid}: returned {r} with {sorted(left)} still outstanding")
+            if r is True:
+                done_reported += 1
+        else:
+            h.check(r is False, "c16.bookkeeping.untracked-or-repeated-report-completed-the-shutdown", f"report for {hid} ({'listener' if as_listener else 'connection'}) returned {r}")
+            h.check(pending() == before, "c16.bookkeeping.untracked-or-repeated-report-changed-the-lists")
+        pa, pc = pending()
+        h.check(pa | pc == set(left), "c16.bookkeeping.lists-differ-from-outstanding-endpoints", f"{sorted(pa | pc)} vs {sorted(left)}")
+    h.check(done_reported <= 1, "c16.bookkeeping.completion-reported-twice")
+    h.cover("c16.bookkeeping.completed", done_reported == 1)
+    h.cover("c16.bookkeeping.nothing-to-wait-for", not tracked)
